@@ -32,6 +32,19 @@ def main():
                         for c, r in m.get("detected_by", {}).items())
         needs = (m.get("needs") or m.get("breaks", "").strip().split("\n")[0])[:220].replace("|", "/")
         out.append("| %s%s | %s | %s | %s |" % (os.path.basename(d), "" if m.get("confirmed", True) else " (unconfirmed)", ", ".join("`%s`" % f for f in files), needs, det))
+    out += ["", "### 0.5b Behaviour-preserving refactors (false-alarm trials)", "",
+            "Written by a fresh sub-agent told to change the shape of the source only (rename, extract/inline helper, loop form, De Morgan, error text,",
+            "defer vs explicit unlock, ...). Every check anchored in the touched files is run against the refactored tree and must stay quiet.", "",
+            "| id | files touched | what changed | checks run: result |", "|---|---|---|---|"]
+    for d in sorted(glob.glob(os.path.join(ROOT, "benign", "*")), key=lambda x: int(os.path.basename(x)) if os.path.basename(x).isdigit() else 0):
+        mp = os.path.join(d, "meta.json")
+        if not os.path.exists(mp):
+            continue
+        m = json.load(open(mp))
+        patch = open(os.path.join(d, "patch.diff")).read()
+        files = sorted(set(re.findall(r"^\+\+\+ b/(\S+)", patch, re.M)))
+        res = "; ".join("%s: %s" % (c, "quiet" if r.get("quiet") else ("ALARM (no-failing-input-found)" if any("no-failing-input-found" in l for l in r.get("lines", [])) else "ALARM")) for c, r in m.get("results", {}).items())
+        out.append("| B%s | %s | %s | %s |" % (os.path.basename(d), ", ".join("`%s`" % f for f in files), m.get("what", "").strip().replace("\n", " ").replace("|", "/")[:260], res))
     out += ["", "## 0.6 Per-property status", "", "| prop | claimed | what the check decides (from its MANIFEST text) |", "|---|---|---|"]
     ready = set(open(os.path.join(ROOT, "lib", "checks", "READY")).read().split())
     for i in range(1, 21):
